@@ -297,7 +297,7 @@ def check_c08(pid, tier, seed, res, work):
         # reference: F alone
         base = '%s/b%d' % (work, i)
         qrun.write_project(base, [F])
-        ctx_kind = ['copies', 'fragments', 'malformed', 'unreadable_file', 'unreadable_dir', 'dangling_symlink', 'decoys', 'callers', 'dir_symlinks', 'file_symlinks', 'same_names'][i % 11]
+        ctx_kind = ['copies', 'fragments', 'malformed', 'unreadable_file', 'unreadable_dir', 'dangling_symlink', 'decoys', 'callers', 'dir_symlinks', 'file_symlinks', 'same_names', 'crowd'][i % 12]
         ctx = []
         if ctx_kind == 'copies':
             ctx = [('src/Copy.java', F[1]), ('other/Target%d.java' % i, F[1])]
@@ -325,6 +325,9 @@ def check_c08(pid, tier, seed, res, work):
             nm = 'Target%d.java' % i
             ctx = [('%s/%s' % (d1, nm), t2.encode()), ('%s/%s/%s' % (d2, d3, nm), b'class Other { int q = 1 + 2; }'), ('src/%s%s' % (letters[0], nm), t2.encode()),
                    (nm, b'class Top { void t() { u(3); } }'), ('src/sub/%s' % nm, F[1] + b'\nclass Extra { }\n')]
+        elif ctx_kind == 'crowd':
+            # hundreds of small well-formed siblings walked BEFORE the target, and the scan allowed 64 open files
+            ctx = [('a%d/S%03d.java' % (k % 5, k), ('class S%03d { int f = %d + 1; void m() { g(%d); } }\n' % (k, k, k)).encode()) for k in range(400)]
         elif ctx_kind == 'decoys':
             ctx = [('src/x.JAVA', F[1]), ('src/y.jav', F[1]), ('src/java', F[1]), ('src/dir.java/inner.txt', b'x'), ('src/dir.java/In.java', b'class In { int z = 1 + 2; }')]
         else:
@@ -381,7 +384,10 @@ def check_c08(pid, tier, seed, res, work):
             cmd = [B + '/harness', 'init-dump', spelled, o]
             if child_as_nobody and name == 'context':
                 cmd = ['setpriv', '--reuid=65534', '--regid=65534', '--clear-groups'] + cmd
-            rc, so, se = run(cmd, timeout=300, env=dict(ENV, HOME=work), cwd=cwd_)
+            if ctx_kind == 'crowd' and name == 'context':
+                rc, so, se = run_env(cmd, ('64 open files', {}, 64), timeout=300, base=dict(ENV, HOME=work), cwd=cwd_)
+            else:
+                rc, so, se = run(cmd, timeout=300, env=dict(ENV, HOME=work), cwd=cwd_)
             if rc != 0:
                 res.tie_broken.append('init-dump failed (%s, %s): %s' % (ctx_kind, name, se.decode(errors='replace')[-200:]))
                 return stats, samples
